@@ -1556,8 +1556,14 @@ impl Rem<Vec4> for Vec4 {
     type Output = Self;
     #[inline]
     fn rem(self, rhs: Self) -> Self {
-        let n = f32x4_floor(f32x4_div(self.0, rhs.0));
-        Self(f32x4_sub(self.0, f32x4_mul(n, rhs.0)))
+        // simd128 has no remainder instruction; use the scalar `%` on each lane so the result
+        // has the sign of the dividend and is exact, like the scalar and core-simd backends.
+        Self::new(
+            self.x.rem(rhs.x),
+            self.y.rem(rhs.y),
+            self.z.rem(rhs.z),
+            self.w.rem(rhs.w),
+        )
     }
 }
 
